@@ -400,7 +400,67 @@ def s6(tier):
     return out
 
 
-STRATA = {'S1': s1, 'S1x': s1_exclude, 'S2': s2, 'S3': s3, 'S4': s4, 'S5': s5, 'S6': s6}
+def s9(tier):
+    """edge designs for totality (C08): k >= T, k >= repetition length, Pin out of range, one-level factors, empty crossing
+    with MinimumTrials, everything excluded, hidden weight factors with every constraint class."""
+    out = []
+    A = basic('A', 2)
+    B = basic('B', 2)
+    A1 = basic('A', 1)
+    Aw = basic('A', 2, [2, 1])
+    fm0 = {'A': A, 'B': B}
+    TA = window('TA', ['A'], fm0, 2, same, kind='transition', start=1)
+    W = within('W', ['A', 'B'], fm0, same)
+    N3 = window('N', ['A'], fm0, 3, repeat_last2, stride=2, start=None)
+    classes = ('AtMostKInARow', 'AtLeastKInARow', 'ExactlyKInARow', 'ExactlyK')
+    for factors, cr, T in (([A, B], ['A'], 2), ([A, B], ['A', 'B'], 4), ([A, B, TA], ['B'], 2), ([A, B, TA], ['TA'], 3),
+                           ([A, B, W], ['W'], 2), ([A, B, N3], ['A'], 2), ([A, B, N3], ['B', 'N'], 6), ([Aw, B], ['B'], 2),
+                           ([Aw, B, W], ['B'], 2), ([Aw, B, TA], ['B'], 2)):
+        fm = {f['name']: f for f in factors}
+        names = [f['name'] for f in factors]
+        for fn in names:
+            l0 = names_of(fm[fn])[0]
+            for cls in classes:
+                for k in sorted(set([T - 1, T, T + 1, 2 * T + 1]) - {0}):
+                    out.append(spec(factors, cross(names, cr, [{'c': cls, 'k': k, 'factor': fn, 'level': l0}]), 'S9'))
+                if tier == 'thorough' or cls in ('AtLeastKInARow', 'ExactlyKInARow'):
+                    out.append(spec(factors, cross(names, cr, [{'c': cls, 'k': T, 'factor': fn, 'level': None}]), 'S9'))
+            for idx in (T - 1, T, T + 3, -T, -T - 1, -T - 4):
+                out.append(spec(factors, cross(names, cr, [{'c': 'Pin', 'index': idx, 'factor': fn, 'level': l0}]), 'S9'))
+            if 'deps' not in fm[fn]:
+                out.append(spec(factors, cross(names, cr, [{'c': 'Sequential', 'factor': fn}]), 'S9'))
+            # everything of one factor excluded
+            ex = [{'c': 'Exclude', 'factor': fn, 'level': l} for l in names_of(fm[fn])]
+            for rcc in (True, False):
+                out.append(spec(factors, cross(names, cr, ex, rcc), 'S9'))
+                out.append(spec(factors, cross(names, cr, ex[:1], rcc), 'S9'))
+        # empty crossing
+        out.append(spec(factors, cross(names, [], [{'c': 'MinimumTrials', 'k': 3}]), 'S9'))
+        out.append(spec(factors, cross(names, [], []), 'S9'))
+    # one-level factors
+    for factors, cr in (([A1, B], ['A']), ([A1, B], ['A', 'B']), ([A1, B], ['B']), ([A1], ['A'])):
+        names = [f['name'] for f in factors]
+        for cs in ([], [{'c': 'AtMostKInARow', 'k': 1, 'factor': 'A', 'level': 'a0'}], [{'c': 'ExactlyK', 'k': 1, 'factor': 'A', 'level': 'a0'}],
+                   [{'c': 'AtLeastKInARow', 'k': 2, 'factor': 'A', 'level': 'a0'}], [{'c': 'MinimumTrials', 'k': 3}],
+                   [{'c': 'Pin', 'index': 0, 'factor': 'A', 'level': 'a0'}], [{'c': 'Sequential', 'factor': 'A'}]):
+            out.append(spec(factors, cross(names, cr, cs), 'S9'))
+    # Repeat with k >= repetition length / constraints at both levels
+    for cls in classes:
+        for k in (2, 3, 5):
+            inner = cross(['A', 'B'], ['A'], [{'c': cls, 'k': k, 'factor': 'B', 'level': 'b0'}])
+            for mt in (4, 5, 6):
+                out.append(spec([A, B], {'op': 'repeat', 'block': inner, 'constraints': [{'c': 'MinimumTrials', 'k': mt}]}, 'S9'))
+            inner2 = cross(['A', 'B'], ['A'], [])
+            out.append(spec([A, B], {'op': 'repeat', 'block': inner2,
+                                     'constraints': [{'c': cls, 'k': k, 'factor': 'B', 'level': 'b0'}, {'c': 'MinimumTrials', 'k': 4}]}, 'S9'))
+    for idx in (0, 1, 2, -1, -3, 5):
+        inner = cross(['A', 'B', 'TA'], ['TA'], [{'c': 'Pin', 'index': idx, 'factor': 'B', 'level': 'b0'}])
+        for mt in (5, 6, 7):
+            out.append(spec([A, B, TA], {'op': 'repeat', 'block': inner, 'constraints': [{'c': 'MinimumTrials', 'k': mt}]}, 'S9'))
+    return out
+
+
+STRATA = {'S9': s9, 'S1': s1, 'S1x': s1_exclude, 'S2': s2, 'S3': s3, 'S4': s4, 'S5': s5, 'S6': s6}
 
 
 def designs(strata, tier, seed=0, quick_fraction=None):
